@@ -118,6 +118,18 @@ claim("C19",
       CSS_TRUST + "The sourcemap crate's VLQ/JSON encoding is trusted (oracle round-trips it).",
       "Lean 4 proof (column invariant by induction over writes) + per-entry correspondence + re-tokenisation oracle")
 
+claim("C11",
+      "PARTIAL proof. Lean 4 theorem path_denotes (structural recursion over the expression, generalised over the slices an enclosing conditional pushes into its "
+      "branches): for every expression, scope configuration, mode (model / script / general) and run-time environment, evaluating the emitted path expression yields "
+      "exactly the location the expression reads — member chain of the branch actually taken, rooted at the data field, the list item's path or the script module — "
+      "and null exactly when the expression is not assignable in that mode; reads_value: the model path looked up in the data is the expression's value; "
+      "not_assignable_no_path, invalid_scope_no_path. Model tied by byte-equality of the three emitted path texts and the has-path flags through a cfg hook. Oracle: "
+      "templates with nested wx:for / model: / event / change: bindings and script modules under the real runtime: observed paths equal independently computed "
+      "locations, and the value at the model path equals the delivered value.",
+      "Trusted: Lean kernel; axioms ⊆ {propext, Classical.choice, Quot.sound}; differential tie; node runner; independent location semantics (checklib/c11.py). The run-time "
+      "environment (temporaries' values, item path = list path ++ [index]) is assumed by the theorems and established by the oracle.",
+      "Lean 4 proof (denotational correctness of the emitted path expression, by structural recursion) + get oracle under the real runtime")
+
 claim("C02",
       "PARTIAL proof. Lean 4 theorems: every allocated identifier is an IdentifierName, never a reserved word / relied-upon global, never a preserved A–Z name, and distinct "
       "counters give distinct names (tables VAR_NAME_* and the reserved list re-extracted from the source each run); every string literal decodes (C12); every value "
